@@ -287,6 +287,7 @@ static void apply_msgs(int n) {
           off += len; cs = 1;
         } else if (enc == (int32_t)0xFFFFFF21) {           /* NewFBSize */
           if (pixels) O("!order %d FAIL size message after pixel data in one update", n);
+          if (x || y) O("!wire %d FAIL NewFBSize rectangle with position %d,%d (must be 0,0)", n, x, y);
           sprintf(tmp, "size %d %d", w, h); vh_buf_add(&line, tmp, strlen(tmp));
           told(n, w, h); sized = 1;
         } else if (enc == (int32_t)0xFFFFFECC) {           /* ExtendedDesktopSize: x = reason, y = status */
@@ -332,9 +333,12 @@ static void apply_msgs(int n) {
 
 static void do_newfb(int w, int h, int b, uint32_t seed) {
   char *old = scr->frameBuffer, *nb = (char *)malloc((size_t)w * h * b + 1);
-  int i, fmtchg = (b != B);
+  int i, fmtchg = (b != B), cx0 = scr->cursorX, cy0 = scr->cursorY;
   fill(nb, w, h, b, seed);
   rfbNewFramebuffer(scr, nb, w, h, b == 2 ? 5 : 8, b == 1 ? 1 : 3, b);
+  /* the pointer position: untouched if it is inside the new area, otherwise moved just inside it */
+  if (scr->cursorX != (cx0 >= w ? w - 1 : cx0) || scr->cursorY != (cy0 >= h ? h - 1 : cy0))
+    printf("!cursor FAIL pointer was at %d,%d, is at %d,%d after the replacement by a %dx%d framebuffer\n", cx0, cy0, scr->cursorX, scr->cursorY, w, h);
   free(old);                                            /* any later touch of the old buffer: ASan */
   W = w; H = h; B = b;
   /* "Rich cursor data should be converted to new pixel format by the caller" */
@@ -373,8 +377,8 @@ static rfbGetExtDesktopScreenPtr default_getscr;
 static int my_nscr(rfbClientPtr cl) { (void)cl; return nscr_hook; }
 static rfbBool my_getscr(int i, rfbExtDesktopScreen *s, rfbClientPtr cl) {
   if (extfail >= 0 && i == extfail) return FALSE;
-  s->id = (uint32_t)i + 1; s->x = (uint16_t)i; s->y = 0;
-  s->width = cl->scaledScreen->width; s->height = cl->scaledScreen->height; s->flags = 0;
+  s->id = (uint32_t)i + 1; s->x = (uint16_t)i; s->y = (uint16_t)(2 * i + 1);
+  s->width = cl->scaledScreen->width; s->height = cl->scaledScreen->height; s->flags = (uint32_t)i + 7;
   return TRUE;
 }
 static void my_df(rfbClientPtr cl, int result) { (void)cl; df_calls++; df_last = result; }
@@ -524,7 +528,7 @@ int main(void) {
       rfbProcessClientMessage(conns[id].cl);
       puts("ok");
     } else if (!strcmp(tok[0], "update") && n == 2) {
-      int id = atoi(tok[1]), due, calls0 = df_calls; rfbClientPtr cl;
+      int id = atoi(tok[1]), due, calls0 = df_calls, hookfailed = 0; rfbClientPtr cl;
       if (!live(id)) { puts("bad-op"); continue; }
       cl = conns[id].cl;
       snap_valid = 0;
@@ -535,8 +539,11 @@ int main(void) {
         rfbScreenInfoPtr ss = cl->scaledScreen;
         hc[id].stale = 0; hc[id].told_w = ss->width; hc[id].told_h = ss->height;
         if (hc[id].pw != ss->width || hc[id].ph != ss->height) repic(id, ss->width, ss->height);
+        hookfailed = 1;
       }
       rfbUpdateClient(cl);
+      if (df_on && hookfailed && df_calls - calls0 == 1 && df_last != FALSE)
+        printf("!df %d FAIL update whose size message was dropped reported as finished successfully\n", id);
       if (df_on && (df_calls - calls0 != (due ? 1 : 0)))
         printf("!df %d FAIL displayFinishedHook ran %d times for %s update\n", id, df_calls - calls0, due ? "a due" : "no");
       if (conns[id].cl && conns[id].cl->sock == RFB_INVALID_SOCKET) {
